@@ -1107,6 +1107,24 @@ pub fn dp_random_case(rep: &mut Report, seed: u64, idx: u64, judge: &'static str
         *s.script.borrow_mut() = sc;
         *s.random_pct.borrow_mut() = 0;
     }
+    // sometimes all slaves misbehave in the same way at the same time (a common cause: wrong wiring,
+    // a firmware quirk of one product family): the same fault on the same transactions of every slave
+    if rng.chance(1, 3) {
+        let sticky = if hostile {
+            rng.pick(&[Fault::DataInsteadOfSc, Fault::DataInsteadOfSc, Fault::ReplyLost, Fault::RequestLost, Fault::WrongDsap, Fault::ShortPdu, Fault::ScInsteadOfData, Fault::Status(3), Fault::ReplyCorrupted]).clone()
+        } else {
+            rng.pick(&BENIGN).clone()
+        };
+        let from = *rng.pick(&[0usize, 1, 1, 2, 2, 3, 4, 8, 20]);
+        let len = 2 + rng.usize(3 * (cfg.retry_limit as usize + 2));
+        for s in &run.slaves {
+            let mut sc = s.script.borrow_mut();
+            for k in from..(from + len).min(sc.len()) {
+                sc[k] = sticky.clone();
+            }
+        }
+        rep.count("dp_common_mode_fault_histories");
+    }
     // user actions
     let tslot = cfg.tslot();
     let horizon = tslot * 40 * n_txn as i64;
@@ -1114,6 +1132,10 @@ pub fn dp_random_case(rep: &mut Report, seed: u64, idx: u64, judge: &'static str
     for _ in 0..n_actions {
         run.world.schedule_action(rng.below(horizon as u64) as Us, rng.below(64) as u32);
     }
+    // "cable cut": all slaves vanish in the same instant for a while (several peripherals then
+    // exhaust their retries in the same DP cycle), then come back after a power cycle
+    let cut: Option<(u64, u64)> = if rng.chance(1, 4) { Some((5 + rng.below(60), 1 + rng.below(40))) } else { None };
+    let mut cut_state = 0u8;
     let mut steps = 0u64;
     let mut fault_phase_done_at: Option<Us> = None;
     let mut cycles_at_done = 0u64;
@@ -1124,13 +1146,33 @@ pub fn dp_random_case(rep: &mut Report, seed: u64, idx: u64, judge: &'static str
             break;
         }
         steps += 1;
+        if let Some((at, len)) = cut {
+            if cut_state == 0 && run.cycles >= at {
+                for (i, sl) in run.slaves.iter().enumerate() {
+                    if run.cfg.periphs[i].present {
+                        sl.core.borrow_mut().present = false;
+                    }
+                }
+                cut_state = 1;
+                rep.count("dp_cable_cuts");
+            } else if cut_state == 1 && run.cycles >= at + len {
+                for (i, sl) in run.slaves.iter().enumerate() {
+                    if run.cfg.periphs[i].present {
+                        let mut c = sl.core.borrow_mut();
+                        c.present = true;
+                        c.power_cycle();
+                    }
+                }
+                cut_state = 2;
+            }
+        }
         if run.dx_events > 0 {
             reached_dx = true;
         }
         if steps % 64 == 0 {
             joint.insert(run.joint_state_fp());
         }
-        let scripts_done = run.slaves.iter().all(|s| s.script.borrow().is_empty() || !s.core.borrow().present);
+        let scripts_done = run.slaves.iter().all(|s| s.script.borrow().is_empty() || !s.core.borrow().present) && cut_state != 1;
         if scripts_done && fault_phase_done_at.is_none() {
             fault_phase_done_at = Some(run.world.now);
             cycles_at_done = run.cycles;
@@ -1201,15 +1243,86 @@ pub fn dump_dp_trace(run: &DpRun, last: usize) {
     }
 }
 
+/// Bounded-systematic part: every sequence of `depth` hostile faults, started after 0..9 fault-free
+/// transactions (every bring-up stage and data exchange), one peripheral, then 12 more DP cycles.
+pub fn dp_systematic_case(rep: &mut Report, seed: u64, prefix: usize, depth: usize, code: u64, judge: &'static str, verbose: bool) {
+    let mut rng = Rng::derive(seed, "dpx", (prefix as u64) << 48 | code);
+    let mut cfg = gen_dp_cfg(&mut rng, 1, 1, judge == "C04");
+    cfg.periphs[0].present = true;
+    rep.evaluations += 1;
+    let mut script: Vec<Fault> = vec![Fault::None; prefix];
+    let mut c = code;
+    for _ in 0..depth {
+        script.push(HOSTILE[(c % HOSTILE.len() as u64) as usize].clone());
+        c /= HOSTILE.len() as u64;
+    }
+    if verbose {
+        eprintln!("{}\n{:?}", cfg.json().render(), script);
+    }
+    let bufs = make_bufs(&cfg);
+    let mut run = DpRun::build(&cfg, &bufs, rng.next_u64(), judge);
+    *run.slaves[0].script.borrow_mut() = script;
+    // a few user calls
+    for _ in 0..rng.usize(4) {
+        let at = rng.below((cfg.tslot() * 40 * (prefix as i64 + depth as i64 + 4)) as u64) as Us;
+        run.world.schedule_action(at, rng.below(64) as u32);
+    }
+    let mut steps = 0u64;
+    let mut done_at: Option<u64> = None;
+    loop {
+        if !run.step(rep, &mut rng) {
+            break;
+        }
+        steps += 1;
+        if done_at.is_none() && run.slaves[0].script.borrow().is_empty() {
+            done_at = Some(run.cycles);
+        }
+        if let Some(d) = done_at {
+            if run.cycles >= d + 12 {
+                break;
+            }
+        }
+        if steps > 3_000_000 {
+            break;
+        }
+    }
+    if verbose {
+        dump_dp_trace(&run, 120);
+    }
+    rep.count("dp_systematic_histories");
+    rep.nontrivial_enum();
+}
+
 fn run_dp_prop(ctx: &mut Ctx, prop: &'static str, q: u64, t: u64, m: u64) {
     let seed = ctx.seed;
     if let Some(only) = ctx.only.clone() {
+        let s = only.iter().position(|x| x == "seed").and_then(|k| only.get(k + 1)).and_then(|x| x.parse().ok()).unwrap_or(seed);
         if only[0] == "dp" {
             let idx: u64 = only[1].parse().unwrap();
-            let s = if only.len() >= 4 { only[3].parse().unwrap_or(seed) } else { seed };
             dp_random_case(&mut ctx.rep, s, idx, prop, true);
         }
+        if only[0] == "dpx" {
+            dp_systematic_case(&mut ctx.rep, s, only[1].parse().unwrap(), only[2].parse().unwrap(), only[3].parse().unwrap(), prop, true);
+        }
         return;
+    }
+    // bounded-systematic: all hostile fault sequences of depth d from every stage
+    let depth = match ctx.tier {
+        Tier::Quick => 2usize,
+        Tier::Thorough => 3,
+        Tier::Miri => 1,
+    };
+    let nseq = (HOSTILE.len() as u64).pow(depth as u32);
+    let mut idx = 0u64;
+    for prefix in [0usize, 1, 2, 3, 4, 5, 9] {
+        for code in 0..nseq {
+            idx += 1;
+            if !ctx.mine(idx) || ctx.over_budget() {
+                continue;
+            }
+            ctx.rep.cur_case = format!("dpx {} {} {} seed {}", prefix, depth, code, seed);
+            dp_systematic_case(&mut ctx.rep, seed, prefix, depth, code, prop, false);
+        }
     }
     let n = ctx.n(q, t, m);
     for k in 0..n {
